@@ -553,62 +553,4 @@ theorem noteFrames_onset (all : List FNote) (total : Rat)
 example : noteFrames [⟨60, 0, 2, false, 0⟩, ⟨64, 1, 2, false, 0⟩, ⟨36, 1/2, 1, true, 0⟩] 2 =
     ⟨[60, 64], [1], [(0, 0), (1, 1)], [(0, 0), (1, 0), (1, 1)]⟩ := by decide +kernel
 
-/-! ## which programs count as unpitched: the table regenerated from `constants.UNPITCHED_PROGRAMS` is the General MIDI one
-
-General MIDI: programs 97-104 (synth effects), 113-120 (percussive) and 121-128 (sound effects), 1-based, i.e. 96..103
-and 112..127 0-based.  `Generated/C19.lean` carries the table as it is in the source on every run; a changed table
-(one program more or less) breaks `unpitched_table_gm`, and with it the reading of "real note" in the theorems below. -/
-
-/-- the regenerated table is exactly 96..103 ∪ 112..127 -/
-theorem unpitched_table_gm : Gen.unpitchedPrograms = List.range' 96 8 ++ List.range' 112 16 := by decide
-
-/-- … hence, for EVERY program number: filtered out as unpitched iff it is a GM effect / percussive program -/
-theorem unpitched_iff (p : Nat) :
-    Gen.unpitchedPrograms.contains p = true ↔ (96 ≤ p ∧ p ≤ 103) ∨ (112 ≤ p ∧ p ≤ 127) := by
-  rw [unpitched_table_gm]
-  simp only [List.contains_eq_mem, List.mem_append, List.mem_range', decide_eq_true_eq]
-  constructor
-  · rintro (⟨i, hi, rfl⟩ | ⟨i, hi, rfl⟩) <;> omega
-  · rintro (h | h)
-    · exact Or.inl ⟨p - 96, by omega, by omega⟩
-    · exact Or.inr ⟨p - 112, by omega, by omega⟩
-
-/-- `noteFrames_onset` with the table read as General MIDI: the note behind an onset flag is not a drum note and its
-program is neither in 96..103 nor in 112..127 (in particular not 127) -/
-theorem noteFrames_onset_gm (all : List FNote) (total : Rat)
-    (hpos : ∀ n ∈ all, 0 ≤ n.start ∧ 0 ≤ n.stop) (f pi : Nat)
-    (h : (f, pi) ∈ (noteFrames all total).onsets) :
-    ∃ n ∈ all, n.isDrum = false ∧ ¬ ((96 ≤ n.program ∧ n.program ≤ 103) ∨ (112 ≤ n.program ∧ n.program ≤ 127)) ∧
-      (noteFrames all total).pitches[pi]? = some n.pitch ∧
-      ((0 :: (noteFrames all total).eventTimes)[f]? = some n.start ∨ n.start = total) := by
-  obtain ⟨n, hn, hd, hp, hpitch, _, ht⟩ := noteFrames_onset all total hpos f pi h
-  refine ⟨n, hn, hd, ?_, hpitch, ht⟩
-  intro hgm
-  have := (unpitched_iff n.program).mpr hgm
-  rw [hp] at this
-  exact Bool.noConfusion this
-
-/-- conversely every non-drum note whose program is outside the GM unpitched ranges is seen: its pitch is a state
-pitch and its onset is flagged in the frame its start time falls into -/
-theorem noteFrames_pitched_seen (all : List FNote) (total : Rat) (n : FNote) (hn : n ∈ all)
-    (hd : n.isDrum = false)
-    (hp : ¬ ((96 ≤ n.program ∧ n.program ≤ 103) ∨ (112 ≤ n.program ∧ n.program ≤ 127))) :
-    n.pitch ∈ (noteFrames all total).pitches ∧
-    ∃ pi, (bisectRight (noteFrames all total).eventTimes n.start, pi) ∈ (noteFrames all total).onsets := by
-  have hc : Gen.unpitchedPrograms.contains n.program = false := by
-    cases hb : Gen.unpitchedPrograms.contains n.program
-    · rfl
-    · exact absurd ((unpitched_iff n.program).mp hb) hp
-  have hf : n ∈ all.filter fun n => !n.isDrum && !Gen.unpitchedPrograms.contains n.program :=
-    List.mem_filter.mpr ⟨hn, by rw [hd, hc]; rfl⟩
-  simp only [noteFrames]
-  constructor
-  · rw [mem_sortedSet]; exact List.mem_map.mpr ⟨n, hf, rfl⟩
-  · exact ⟨_, (mem_sortedSet _ _).mpr (List.mem_map.mpr ⟨n, hf, rfl⟩)⟩
-
-/-- non-vacuity: programs 95 / 104 / 111 are pitched, 96 / 103 / 112 / 127 are not -/
-example : noteFrames [⟨60, 0, 1, false, 95⟩, ⟨61, 0, 1, false, 96⟩, ⟨62, 0, 1, false, 103⟩, ⟨63, 0, 1, false, 104⟩,
-    ⟨64, 0, 1, false, 111⟩, ⟨65, 0, 1, false, 112⟩, ⟨66, 0, 1, false, 127⟩] 1 =
-    ⟨[60, 63, 64], [], [(0, 0), (0, 1), (0, 2)], [(0, 0), (0, 1), (0, 2)]⟩ := by decide +kernel
-
 end NSV.C19
